@@ -15,6 +15,8 @@ def check(pid, text, note, design, technique=TECH, engine='mirsym'):
 CHECKS = [
  check('C02', 'Bounded model checking of the real validation code: walk(..).validate() and valid() are executed symbolically from the MIR of /repo on EVERY graph state with <=3 (quick) / <=4 (thorough) specifiers and <=1/2 dependencies per module, for every walk-option cube; the solver decides "fails iff a failure is reachable along the selected edges" and that the reported error identifies a reachable failure. Two recorded findings (known_findings.jsonl) are excluded by structural signature and re-confirmed natively on every run.',
        'Trusted: the MIR text parser/interpreter and the container/iterator/Url/str models (listed in the evidence, validated every run against the real crate on random concrete worlds and on every solver model); the representation invariant of DESIGN.md 3; z3. Outside: more specifiers/dependencies than the bound, builder-produced graphs as such, error ordering between roots.', 'DESIGN.md 5 C02'),
+ check('C06', 'Bounded model checking of the version selection function: JsrPackageVersionResolver::resolve_version, packages::resolve_version, the date filters and get_for_package executed from MIR over EVERY version world with <=4 (quick) / <=6 (thorough) totally ordered versions, arbitrary registry subset / yanked flags / creation dates / cached set / cutoff, an arbitrary matches predicate (generalises over semver requirements), an arbitrary sequence of already-selected versions and an arbitrary HashMap iteration order; the solver decides equality with the four-tier rule of the statement, the not-found payload, and independence from iteration order. One recorded boundary finding (version created exactly at the cutoff).',
+       'Trusted: interpreter + models (Version as ranked atom, VersionReq::matches as arbitrary predicate, chrono instants as 16-bit integers, HashMap iteration as symbolic permutation), z3. Outside: graph-level bookkeeping (resolve_jsr_nv, lockfile seeding, tag rejection), real semver parsing, more versions than the bound.', 'DESIGN.md 5 C06'),
  check('C14', 'Bounded model checking of resolve/get/contains/try_get/try_get_prefer_types/specifiers/resolve_dependency executed from MIR on every graph state (N<=3 quick, N<=4 thorough) and on redirect-only worlds up to 12 specifiers (chains crossing MAX_REDIRECTS, free redirect maps up to N=6/7): termination (unwinding assertion), idempotence, and agreement with what the real walk reaches. Three recorded findings are excluded by signature and re-confirmed natively each run; one defect (specifiers() one-hop) was repaired by a fix: commit.',
        'Trusted: interpreter + models + invariant (as C02); the oracle "what a walk reaches" is itself checked against the real walk executed from MIR (cube walk_agreement). Outside: N beyond the bound.', 'DESIGN.md 5 C14'),
  check('C15', 'Bounded model checking of ModuleGraph::walk / ModuleEntryIterator::{new,next,analyze_module_deps,is_checkable,skip_previous_dependencies} executed from MIR on every graph state (N<=3, D<=1 quick; N<=4 or D<=2 thorough), every option cube and arbitrary root subsets: each specifier yielded at most once, yielded set = option-selected reachable set (independent fixpoint oracle), entry kinds and redirect targets, exhaustion, arbitrary skip sets.',
@@ -30,7 +32,6 @@ NA = {
  'C03': 'fault assignments to every load call of a build: needs the async builder loop executed symbolically; not encodable (DESIGN.md 5 C03).',
  'C04': 'interleavings of future completions and hasher seeds inside the builder: Kani has no concurrency model and the completion order lives inside futures queues (DESIGN.md 5 C04).',
  'C05': 'per-load-call checksum obligations live in the coroutine-lowered try_load and builder code; not encodable within reach (tier-2 attempt not built).',
- 'C06': 'not built yet in this round (planned: mirsym over packages.rs)',
  'C07': 'Url::join/format!/semver parsing and builder bookkeeping: string-processing loops whose trip count grows with input (a concrete Url::parse alone costs 20 s in Kani).',
  'C08': 'not built yet in this round (planned: position/range kernels)',
  'C09': 'closure of fast-check output over all programs needs the swc pipeline; lattice kernel not built yet.',
